@@ -43,6 +43,8 @@ class Ctx:
 
     defs: list = []          # id -> (kind, z3 Bool that must hold, description)
     strict: list = []        # ids in program order (every definedness condition generated)
+    clips: list = []         # (If-term, condition under which the clip is inactive)
+    guards: list = []        # (If-term, guard condition) of every symbolic where
     index_obl: list = []     # (description, ok: bool)  gather/scatter index obligations
     api_calls: dict = {}     # primitive name -> number of conformant calls
     facts: list = []         # facts contributed by contract stubs (callee ensures)
@@ -53,6 +55,8 @@ class Ctx:
     def reset(cls):
         cls.defs = []
         cls.strict = []
+        cls.clips = []
+        cls.guards = []
         cls.index_obl = []
         cls.api_calls = {}
         cls.facts = []
@@ -366,14 +370,18 @@ def swhere(c, a, b):
         d = d | {i}
     if a.c is not None and b.c is not None and a.c == b.c:
         return Sym(a.c, d=d)
-    return Sym(z3.If(c.e, a.e, b.e), d=d)
+    t = z3.If(c.e, a.e, b.e)
+    Ctx.guards.append((t, c.e))
+    return Sym(t, d=d)
 
 
 def smin(a, b):
     a, b = Sym.lift(a), Sym.lift(b)
     if a.c is not None and b.c is not None:
         return Sym(min(a.c, b.c), d=a.d | b.d)
-    return Sym(z3.If(a.e <= b.e, a.e, b.e), d=a.d | b.d)
+    t = z3.If(a.e <= b.e, a.e, b.e)
+    Ctx.clips.append((t, a.e <= b.e))
+    return Sym(t, d=a.d | b.d)
 
 
 def smax(a, b):
